@@ -285,6 +285,23 @@ def gen_C01(rng, tier):
             a["op"] = rng.randrange(len(d["ops"]))
         if "restart_before" in d["faults"]:
             d["faults"]["restart_before"] = [1]
+        if d["backend"] != "scan" and rng.random() < 0.5:
+            # ... on a map that had fewer roads then: some directed edges are added to the live map object
+            # only after that first match (the earlier match is not judged, the map was another one)
+            cand = [[l, b] for l, _, nb in w_plan["nodes"] for b in nb if b != l]
+            lk = set()
+            for e, fs in w_plan.get("linked", []):
+                lk.add(tuple(e))
+                lk.update(tuple(f) for f in fs)
+            cand = [e for e in cand if tuple(e) not in lk]
+            if cand:
+                w_plan["late_edges"] = rng.sample(cand, min(len(cand), rng.randint(1, 3)))
+                d["ops"].insert(1, {"op": "grow"})
+                for a in d["faults"].get("aborts", []):
+                    if a["op"] == 1:
+                        a["op"] = 2
+                if "restart_before" in d["faults"]:
+                    d["faults"]["restart_before"] = [rng.choice([1, 2])]
     return d
 
 
@@ -303,6 +320,10 @@ def eval_C01(doc):
     def on_op(s, o):
         if o.exc is not None or o.ret is None or o.kind not in ("match", "retry", "rematch", "fresh"):
             return
+        if doc["world"].get("late_edges") and not s.grown:
+            return
+        if s.grown:
+            stats["probe_match_after_map_grew"] = stats.get("probe_match_after_map_grew", 0) + 1
         k = o.op["k"]
         ref = WalkRef(ctx.store, ctx.model, s.cur_trace[:k], with_self)
         ideal = ref.start_states()
